@@ -74,8 +74,8 @@ Definition mark (p : pool) (k fl : N) : pool * out :=
   | None =>
       (* lookup in a nil map gives !ok *)
       if fl =? 0 then (p, out_nil)
-      else (* setFinalizer(v, goFinalizer); lastMarkOrder++; then the store panics *)
-        (mkPool None (last p + 1) (pendF p) (pendR p), mkOut [] [(k, true)] true)
+      else (* setFinalizer(v, nil); setFinalizer(v, goFinalizer); lastMarkOrder++; then the store panics *)
+        (mkPool None (last p + 1) (pendF p) (pendR p), mkOut [] [(k, false); (k, true)] true)
   | Some r =>
       match lookup k r with
       | Some c =>
@@ -87,7 +87,8 @@ Definition mark (p : pool) (k fl : N) : pool * out :=
           if fl =? 0 then (p, out_nil)
           else
             let c' := mkEntry k (last p + 1) (negb (N.testbit fl 0)) (negb (N.testbit fl 1)) in
-            (mkPool (Some (store c' r)) (last p + 1) (pendF p) (pendR p), mkOut [] [(k, true)] false)
+            (* a stale finaliser of a discarded pool is cleared before the new one is set *)
+            (mkPool (Some (store c' r)) (last p + 1) (pendF p) (pendR p), mkOut [] [(k, false); (k, true)] false)
       end
   end.
 
@@ -118,12 +119,14 @@ Definition extPR (p : pool) : pool * out :=
 Definition notFin (c : entry) : bool := negb (eFin c).
 Definition notRel (c : entry) : bool := negb (eRel c).
 
+(* marked := pendingFinalize (values whose Go finaliser fired, __gc still owed), then every register
+   entry not yet flagged finalized *)
 Definition extAF (p : pool) : pool * out :=
   match reg p with
-  | None => (mkPool None (last p) [] (pendR p), out_nil)
+  | None => (mkPool None (last p) [] (pendR p), mkOut (keys (sort_desc (pendF p))) [] false)
   | Some r =>
       (mkPool (Some (map (fun c => if notFin c then setFin c else c) r)) (last p) [] (pendR p),
-       mkOut (keys (sort_desc (filter notFin r))) [] false)
+       mkOut (keys (sort_desc (pendF p ++ filter notFin r))) [] false)
   end.
 
 Definition extAR (p : pool) : pool * out :=
@@ -165,8 +168,8 @@ Record world := mkWorld {
   dropped : list N;   (* keys the program can no longer reach (everything else is reachable) *)
   held : list N;      (* keys held by the runtime while their finaliser runs *)
   armed : list N;     (* keys that currently have a Go finaliser set *)
-  lost : list N;      (* ghost: keys whose owed finaliser call was discarded by an extract-all
-                         (ExtractAllMarkedFinalize drops pendingFinalize; PopContext drops its result) *)
+  lost : list N;      (* ghost: keys whose owed finaliser call was discarded (PopContext drops the
+                         result of ExtractAllMarkedFinalize: the killed-context path) *)
   tr : list obs       (* what happened so far, newest first *)
 }.
 
@@ -197,9 +200,9 @@ Definition wstep (w : world) (e : ev) : option world :=
       else
         let '(p', x) := mark p k fl in
         let armed' := match oCalls x with
-                      | [(_, true)] => k :: armed w
+                      | [] => armed w
                       | [(_, false)] => rm k (armed w)
-                      | _ => armed w
+                      | _ => k :: armed w
                       end in
         Some (mkWorld p' (dropped w) (held w) armed' (rm k (lost w)) (Marked k fl :: tr w))
   | EDrop k => Some (mkWorld p (k :: dropped w) (held w) (armed w) (lost w) (tr w))
@@ -221,12 +224,12 @@ Definition wstep (w : world) (e : ev) : option world :=
   | ECloseF =>
       if closed p then None else
       let '(p', x) := extAF p in
-      Some (mkWorld p' (dropped w) (oVals x ++ held w) (armed w) (keys (pendF p) ++ lost w) (emit Fin (oVals x) (tr w)))
+      Some (mkWorld p' (dropped w) (oVals x ++ held w) (armed w) (lost w) (emit Fin (oVals x) (tr w)))
   | EPop =>
       if closed p then None else
       let '(p1, f) := extAF p in
       let '(p2, x) := extAR p1 in
-      Some (mkWorld p2 (dropped w) (held w) (armed w) (keys (pendF p) ++ oVals f ++ lost w) (emit Rel (oVals x) (tr w)))
+      Some (mkWorld p2 (dropped w) (held w) (armed w) (oVals f ++ lost w) (emit Rel (oVals x) (tr w)))
   end.
 
 Fixpoint wrun (w : world) (es : list ev) : option world :=
